@@ -24,7 +24,7 @@ RULE = ('every base statement list (len<=N over the menu) x every injection posi
         'of the truncated files compared on the whole observation vector. non-trivial = position > 0 or nested.')
 ASSUMPTIONS = ['files are served by an in-memory reader with a .name attribute', 'truncated-file parse is the reference '
                'for "exactly the preceding statements"', 'statement menu and fault menu as listed in coverage']
-WITNESSES = ['prefix_applied', 'nothing_after_applied', 'fault_in_included_file', 'fault_in_nested_include',
+WITNESSES = ['locked_dynamic_registration_located', 'prefix_applied', 'nothing_after_applied', 'fault_in_included_file', 'fault_in_nested_include',
              'fault_in_block_member', 'location_chain_checked', 'syntaxerror_lineno_checked', 'scope_restored',
              'lock_restored', 'followup_parse_same', 'provenance_checked', 'multiline_statement_begin_line', 'dynamic_registration_fault']
 
@@ -498,6 +498,40 @@ def dyn_cases(tier):
               yield (list(base), tgt, idx, fkind, None, start)
 
 
+# --------------------------------------------------------------- errors while a dynamic-registration parse meets a
+# locked configuration: the first use of a not-yet-registered name is itself rejected, and must be located
+LOCKED_DYN = {
+    'binding': "from __gin__ import dynamic_registration\nimport c16mod\n\n# comment\nc16mod.g.p = 3\n",
+    'block': "from __gin__ import dynamic_registration\nimport c16mod\n\n\nc16mod.g:\n  p = 3\n",
+    'included': "include 'c16_locked_inner.gin'\n",
+}
+
+
+def check_locked_dyn(name, res):
+  desc = ['locked_dyn', name]
+  harness.hard_reset()
+  MEM.clear()
+  MEM['c16_locked_inner.gin'] = LOCKED_DYN['binding']
+  res.case(tuple(desc), True)
+  gin.parse_config("from __gin__ import dynamic_registration\nimport c16mod\nc16mod.f.a = 1\n")
+  gin.finalize()
+  try:
+    gin.parse_config(LOCKED_DYN[name])
+    res.violation('state_not_prefix:config', '%r: a binding on a locked configuration was accepted' % (desc,), desc)
+    return
+  except RuntimeError as e:
+    msg = str(e)
+  except Exception as e:  # pylint: disable=broad-except
+    res.violation('wrong_exception_class:locked_dyn', '%r: raised %r, expected RuntimeError (locked)' % (desc, e), desc)
+    return
+  want = ['line 5'] if name != 'included' else ['c16_locked_inner.gin', 'line 5', 'line 1']
+  if not all(w in msg for w in want):
+    res.violation('error_location_chain', '%r: the error raised while registering on a locked configuration does not name %r:\n%s'
+                  % (desc, want, msg), desc)
+  else:
+    res.w('locked_dynamic_registration_located')
+
+
 NSH = 64
 
 
@@ -518,6 +552,9 @@ def run_shard(i, tier):
         res.sample({'case': core.jsonable(case)})
     if 'harness_error' in res.extra:
       break
+  for n, name in enumerate(LOCKED_DYN):
+    if n % NSH == i:
+      check_locked_dyn(name, res)
   harness.hard_reset()
   return res
 
@@ -526,6 +563,8 @@ def replay(case):
   res = core.Result()
   if case[0] == 'prov':
     check_provenance(case[1:], res)
+  elif case[0] == 'locked_dyn':
+    check_locked_dyn(case[1], res)
   else:
     check_case(tuple(case), res)
   harness.hard_reset()
